@@ -59,3 +59,20 @@ Theorem C06_rpc_error : forall s o seg p, op_payload o = BOk p -> n_panic s = fa
 Proof. exact NcExtraLemmas.rpc_error_wins. Qed.
 
 Print Assumptions C06_rpc_error.
+
+(* THE TIE BY TRANSLATION for Channel.SendInputB: the function as the source has it on this run (its
+   goroutine inline), run for every combination of its option tests and for a failure of either
+   read (deadline or loss), invokes the primitives and returns the class of result that the model's
+   send_input does — write, echo read (fuzzy or exact), return, prompt read (plain or with the
+   interim patterns) unless eager, result; a deadline at a read yields the timeout error, a loss
+   the transport's own error, and nothing is invoked after the failing read — for EVERY
+   configuration, input, options and sequence of read outcomes. *)
+From Scrapli Require Import DecideLang GeneratedSkel InteractiveSrcDefs ChannelSrc.
+Theorem C06_send_input_is_source :
+  sin_table_ok = true
+  /\ forall cfg input o rds,
+       mrun (send_input cfg input o) rds
+       = (flat_map (sact_pacts cfg input o) (fst (sin_expected (o_exact o) (o_eager o) (is_nil (o_interim o)) (fail_src o input rds))),
+          snd (sin_expected (o_exact o) (o_eager o) (is_nil (o_interim o)) (fail_src o input rds))).
+Proof. exact send_input_is_source. Qed.
+Print Assumptions C06_send_input_is_source.
